@@ -50,6 +50,7 @@ fn gen_proof(leaves: &[Leaf], item: &Leaf) -> Option<(bool, Vec<u8>)> {
 }
 
 fn proof_case(o: &mut Out, leaves: &[Leaf], item: &Leaf) {
+    o.begin(&format!("C12 proof {} {}", leaves_str(leaves), hex::encode(item)));
     let r = catch_unwind(AssertUnwindSafe(|| match gen_proof(leaves, item) {
         Some((inc, p)) => format!("{} {}", inc as u8, hx(&p)),
         None => "ERR".into(),
@@ -73,6 +74,8 @@ fn verdict_str(v: &Result<Option<bool>, ()>) -> String {
 /// `claim`: what the harness knows about `root`: Some(b) = it is the root of a set for which
 /// membership of `item` is `b` (a verdict contradicting it is marked UNSOUND); None = nothing known
 fn validate_case(o: &mut Out, root: &Leaf, item: &Leaf, proof: &[u8], claim: Option<bool>) {
+    let c0 = match claim { Some(true) => "in", Some(false) => "out", None => "any" };
+    o.begin(&format!("C12 validate {} {} {} {c0}", hex::encode(root), hex::encode(item), hx(proof)));
     let v = verdict(proof, item, root);
     let mut s = verdict_str(&v);
     if let (Ok(Some(b)), Some(c)) = (&v, claim) {
@@ -83,6 +86,7 @@ fn validate_case(o: &mut Out, root: &Leaf, item: &Leaf, proof: &[u8], claim: Opt
 }
 
 fn sound_case(o: &mut Out, leaves: &[Leaf], item: &Leaf, proof: &[u8]) {
+    o.begin(&format!("C12 sound {} {} {}", leaves_str(leaves), hex::encode(item), hx(proof)));
     let root = catch_unwind(AssertUnwindSafe(|| {
         let mut a = leaves.to_vec();
         compute_merkle_set_root(&mut a)
